@@ -161,6 +161,51 @@ theorem invFlags_init (src : List (Key × Nat × Int)) : InvFlags (init src) := 
   | nil => simp [InvFlags, hc]
   | cons a b => simp [InvFlags, hc]
 
+/-- ready-but-empty hits are paid for by logins that delivered nothing (or the initial emptiness) -/
+def InvEmpty (s : St) : Prop :=
+  s.emptyHits + (if s.ready = true ∧ s.cur = [] then 1 else 0) ≤ (if s.startedEmpty then 1 else 0) + s.emptyPops
+
+theorem invEmpty_step (s : St) (l : Label) (s' : St) (h : InvEmpty s) (hf : InvFlags s)
+    (hs : step s l = some s') : InvEmpty s' := by
+  unfold InvEmpty at h ⊢
+  cases l <;> simp only [step] at hs <;> (repeat' split at hs) <;> simp at hs <;> subst hs
+  all_goals first | exact h | skip
+  · -- invalHit: afterwards either not ready or not empty
+    rename_i hc _
+    have hne : s.cur ≠ [] := by intro e; rw [e] at hc; simp at hc
+    unfold invalHit
+    split
+    · simp only [Bool.false_eq_true, false_and, if_false] at *; simp [hne] at h; simpa using h
+    · rename_i k _ _ _ _ _ he
+      have : erase k s.cur ≠ [] := by intro e; rw [e] at he; simp at he
+      simp only [this, and_false, if_false]; simp [hne] at h; simpa using h
+  · unfold invalMiss
+    split
+    · rename_i he
+      have hc : s.cur = [] := by cases hh : s.cur with | nil => rfl | cons a b => rw [hh] at he; simp at he
+      cases hr : s.ready <;> simp [hr, hc] at h ⊢ <;> omega
+    · exact h
+  · unfold invalMiss
+    split
+    · rename_i he
+      have hc : s.cur = [] := by cases hh : s.cur with | nil => rfl | cons a b => rw [hh] at he; simp at he
+      cases hr : s.ready <;> simp [hr, hc] at h ⊢ <;> omega
+    · exact h
+  · -- populate: the authenticator runs, so the vault was not ready
+    rename_i src _ ha
+    have hr := hf.1 ha
+    simp only [populated]
+    simp [hr] at h
+    cases hc : (accept s.inv src s.cur s.nextId).1 with
+    | nil => by_cases hse : s.startedEmpty = true <;> simp [hse] at h ⊢ <;> omega
+    | cons a b => by_cases hse : s.startedEmpty = true <;> simp [hse] at h ⊢ <;> omega
+
+theorem invEmpty_init (src : List (Key × Nat × Int)) : InvEmpty (init src) := by
+  unfold init InvEmpty
+  cases hc : (accept (fun _ => []) src [] 0).1 with
+  | nil => simp [hc]
+  | cons a b => simp [hc]
+
 /-! ### identities: fresh serials, stale holders, the "impossible state" -/
 
 def holds : Pc → Option (Key × Item)
@@ -462,6 +507,10 @@ theorem invHist_init (src : List (Key × Nat × Int)) : InvHist (init src) := by
 /-! ### everything together -/
 
 def Inv (s : St) : Prop := InvFlags s ∧ InvIds s ∧ InvHist s
+
+theorem invEmpty_of_reach (s : St) (h : Reach s) : InvFlags s ∧ InvEmpty s :=
+  inv_reach (fun s => InvFlags s ∧ InvEmpty s) (fun src => ⟨invFlags_init src, invEmpty_init src⟩)
+    (fun s l s' ⟨a, b⟩ hs => ⟨invFlags_step s l s' a hs, invEmpty_step s l s' b a hs⟩) s h
 
 theorem inv_of_reach (s : St) (h : Reach s) : Inv s :=
   inv_reach Inv (fun src => ⟨invFlags_init src, invIds_init src, invHist_init src⟩)
